@@ -15,12 +15,13 @@
 (* The spec actions are re-executed on the recorded arguments; every clause   *)
 (* of C03 / C04 is evaluated by TLC on the values the CODE produced.  A false *)
 (* clause is written to IOEnv.VERDICT_FILE, the trace continues.              *)
-EXTENDS Matryoshka
+EXTENDS Matryoshka, TLCExt
 
 VARIABLES tid, l
 tvars == <<vars, tid, l>>
 
-TraceLog == ndJsonDeserialize(IOEnv.TRACE_FILE)
+\* TLCEval: parse the file once, not at every use
+TraceLog == TLCEval(ndJsonDeserialize(IOEnv.TRACE_FILE))
 Tr == TraceLog[tid]
 
 Say(v) == CSVWrite("%1$s", <<ToJson(v)>>, IOEnv.VERDICT_FILE)
